@@ -202,6 +202,23 @@ def props_check(prop_id):
     return res
 
 
+def coqchk(ids, timeout=3000):
+    """Independent re-check of the compiled theorem files and everything they depend on (thorough tier).
+    Returns dict(ok, axioms, log)."""
+    mods = ["FunV.Props." + i for i in ids]
+    with Lock("coq"):
+        rc, out, dt = run(["coqchk", "-silent", "-o", "-Q", ".", "FunV"] + mods, cwd=COQ, timeout=timeout)
+    m = re.search(r"\* Axioms:(.*?)\n\s*\n\* Constants/Inductives relying on type-in-type:(.*?)\n\s*\n\* Constants/Inductives relying on unsafe \(co\)fixpoints:(.*?)\n\s*\n\* Inductives whose positivity is assumed:(.*?)\n", out + "\n\n", re.S)
+    res = dict(ok=False, axioms=[], log=out[-1500:], wall_s=round(dt, 1))
+    if rc != 0 or not m:
+        return res
+    axioms = [a.strip() for a in m.group(1).split("\n") if a.strip() and a.strip() != "<none>"]
+    unsafe = [x.strip() for g in (2, 3, 4) for x in m.group(g).split("\n") if x.strip() and x.strip() != "<none>"]
+    bad = [a for a in axioms if not (a in ALLOWED_AXIOMS or a.startswith(ALLOWED_AXIOM_PREFIXES) or a.split(".")[-1] in ALLOWED_AXIOMS)]
+    res.update(ok=not bad and not unsafe, axioms=axioms, unsafe=unsafe, disallowed=bad)
+    return res
+
+
 def props_check_many(ids):
     """props_check over several theorem files (e.g. Props/C16.v and Props/C16_stack.v)."""
     res = dict(ok=True, theorems=[], log="", file=" ".join("Props/%s.vo" % i for i in ids))
